@@ -2,7 +2,7 @@
 REG = dict(
     engine='E1-enum',
     technique='exhaustive enumeration of effectful built-in x argument vector x call position x import form x sandbox mode, each run as a real CLI process in a private fixture directory whose tree is hashed before and after',
-    text="Every function of __fs.gdn and __shell.gdn (table parsed from the repository at run time), read_line, shell_arguments, every built-in Path method, source_file and built_in_files is called with every argument vector of a pool (existing/missing/absolute/nested path, directory, empty directory, wrong type, arity n-1/n+1; one-position deviations from a primary vector in quick, the full product in thorough) at 7 call positions (top level, function, closure, method, test body, closure passed to map, function reference passed to map), qualified (`ns::f`) and unqualified import, under `playground-run` and `sandboxed-test` (offset inside the test and outside every test); in quick the full position x form x mode cross is run for the primary vector and the other vectors at top level / function / test body. Oracle: for a call of anything that creates/modifies/deletes/reads files, starts a process or reads stdin (functions: whatever the arguments, also wrong types and arity; methods: well-typed calls) the evaluation ends with the sandbox error; in every case the fixture tree (names, kinds, sizes, mtimes, sha1) is unchanged, the canary executables first on PATH did not run, no fixture secret (file content, directory entry name, stdin token) reaches the output, and the process finishes although stdin is a pipe that stays open and silent. A non-sandboxed `garden run` of the same call per function shows each detector firing.",
+    text="Every function of __fs.gdn and __shell.gdn (table parsed from the repository at run time), read_line, shell_arguments, every built-in Path method, source_file and built_in_files is called with every argument vector of a pool (existing/missing/absolute/nested path, directory, empty directory, wrong type, arity n-1/n+1; one-position deviations from a primary vector in quick, the full product in thorough) at 9 call positions (top level, function, closure, method, test body, closure passed to map, function reference passed to map, and as a statement whose value is discarded at top level and in a function), qualified (`ns::f`) and unqualified import, under `playground-run` and `sandboxed-test` (offset inside the test and outside every test); in quick the full position x form x mode cross is run for the primary vector and the other vectors at top level / function / test body. Oracle: for a call of anything that creates/modifies/deletes/reads files, starts a process or reads stdin (functions: whatever the arguments, also wrong types and arity; methods: well-typed calls) the evaluation ends with the sandbox error; in every case the fixture tree (names, kinds, sizes, mtimes, sha1) is unchanged, the canary executables first on PATH did not run, no fixture secret (file content, directory entry name, stdin token) reaches the output, and the process finishes although stdin is a pipe that stays open and silent. A non-sandboxed `garden run` of the same call per function shows each detector firing.",
     note='Effects are observed from outside the process (tree hash, PATH canary, secrets, stdin token); reads that reveal a single bit (exists) are only covered by the demanded sandbox error. `import` of a local file and check_snippet read the imported file even when sandboxed: recorded as an outcome, outside the statement (not the filesystem API). Environment variables, working-directory bookkeeping and source_file (path canonicalisation) are observed, not demanded.',
     design_ref='DESIGN.md §6 C24',
 )
@@ -32,7 +32,7 @@ STATIC_CLASS = {
     "source_file": "observed", "built_in_files": "observed",
 }
 HEADERS = {"__fs.gdn": "fs", "__shell.gdn": "shell", "__reflect.gdn": "reflect"}
-POSITIONS = ["top", "fun", "closure", "method", "test", "map_closure", "map_ref"]
+POSITIONS = ["top", "fun", "closure", "method", "test", "map_closure", "map_ref", "stmt", "fun_stmt"]
 
 
 def builtin_names(fname):
@@ -180,6 +180,12 @@ def program(f, srcs, form, pos, mode):
         driver = W(f"[1].map(fun(_) {{ {call} }})")
     elif pos == "map_ref":
         driver = W(f"[{srcs[0]}].map({fun_ref(f, form)})")
+    elif pos == "stmt":
+        # the value of the call is discarded
+        driver = f"{call}\n{W('0')}"
+    elif pos == "fun_stmt":
+        defs = f"fun f() {{\n  {call}\n  0\n}}\n"
+        driver = W("f()")
     src = header(f, form) + defs
     if mode == "playground-run":
         if pos == "test":
@@ -452,6 +458,6 @@ def run(ctx):
         f, labels, srcs, ok, form, pos, mode, offv = cases[i]
         ctx.sample({"function": f["key"], "arguments": list(labels), "import_form": form, "position": pos, "mode": mode, "offset": offv, "outcome": res[i]["cls"], "program": res[i]["src"]})
     return ("every effectful entry point (all of __fs.gdn/__shell.gdn, read_line, shell_arguments, built-in Path methods, source_file, built_in_files) x argument vector "
-            "(path pool: existing/missing/absolute/nested/dir/empty dir/'.', wrong type, arity +-1) x 7 call positions x qualified/unqualified import x "
+            "(path pool: existing/missing/absolute/nested/dir/empty dir/'.', wrong type, arity +-1) x 9 call positions x qualified/unqualified import x "
             "{playground-run, sandboxed-test offset in test, sandboxed-test offset outside tests}, one real CLI process each in a private fixture directory with stdin held open. "
             "Non-trivial = every sandboxed case (controls and the import observation excluded).")
